@@ -2,9 +2,12 @@
 # usage: tools/seedtest.sh <seeded-dir> <property>...   applies the patch to /repo, runs the checks, reverts
 d=$1; shift
 cd /verif
+# the checks rewrite evidence/*.json: keep the clean-tree evidence and put it back afterwards
+rm -rf build/evidence.keep; cp -r evidence build/evidence.keep
 git -C /repo apply /verif/$d/patch.diff || { echo "patch does not apply"; exit 2; }
 for p in "$@"; do
   echo "== $p on $(basename $d)"
   ./check $p --tier quick --no-build 2>/dev/null | tail -4
 done
 git -C /repo checkout -- .
+rm -rf evidence; mv build/evidence.keep evidence
